@@ -130,3 +130,52 @@ lu = Fn(LUP + 'lu', ret='r', level='L1', valid=LUV, panics={1: 'REJECT'}, rewrit
 UNITS.append(Unit('C11_lu', ('C11', 'C01'), [lu], use=[is_square], types=core.TYPES, type_spec=core.TYPE_SPEC, spec=SPEC + LU_SPEC, nra=LU_NRA, preludes=PRE, broadcast=BC,
                   level='L1', rlimit=300,
                   notes='slice-level pivoted LU: pivots stay a permutation, the chosen pivot maximises |.| in its column so that every multiplier is bounded by 1'))
+
+# ---------------------------------------------------------------- pivoted LU (Matrix level): same contract over lu.data
+from contracts.core import IM, MAT
+D_ = 'lu.data.v@'
+SHP = 'lu.nrows == n && lu.ncols == n && wf(lu)'
+MFRAME = ('assert forall|r: int, c: int| 0 <= r < n && 0 <= c < n && !(r == {R} && c == {C}) implies #[trigger] at2(lu.data.v@, n as int, r, c) == at2(pre_lu, n as int, r, c) by '
+          '{{ lemma_idx(r, c, n as int, n as int); if r * n + c == {R} * n + {C} {{ lemma_idx_inj(r, c, {R} as int, {C} as int, n as int); }} }}')
+KEEP = 'assert(bounded(lu.data.v@, n as int, j as int)) by { assert forall|r: int, c: int| 0 <= c < j && c < r < n implies r_abs(rv(#[trigger] at2(lu.data.v@, n as int, r, c))) <= 1real by { assert(r_abs(rv(at2(pre_lu, n as int, r, c))) <= 1real); } }'
+mlu = Fn(IM + 'lu', ret='r', level='L1', valid='self.nrows == self.ncols', panics={1: 'REJECT'}, attrs=['#[verifier::loop_isolation(false)]'],
+         requires=['C11.mlu.wf:: wf(*self)'],
+         ensures=['C11.mlu.valid:: self.nrows == self.ncols',
+                  'C11.mlu.shape:: r.0.nrows == self.nrows && r.0.ncols == self.ncols && wf(r.0)',
+                  'C11.mlu.permutation:: is_perm32(r.1@, self.nrows as int)',
+                  'C11.mlu.l_bounded:: bounded(r.0.data.v@, self.nrows as int, self.nrows as int)'],
+         closures={1: {'params': 'x: usize', 'ret': 'o: i32', 'requires': ['x < n', 'n <= 0x7fff_ffff'], 'ensures': ['o == x']}},
+         loops={
+             1: {'invariant': [SHP, 'C11.mlu.perm.inv:: is_perm32(pivots@, n as int)', 'C11.mlu.bounded.inv:: bounded(lu.data.v@, n as int, j as int)']},
+             2: {'invariant': [SHP, '0 <= j < n', 'bounded(lu.data.v@, n as int, j as int)', 'is_perm32(pivots@, n as int)']},
+             3: {'invariant': [SHP, '0 <= j < n', '0 <= i < n', 'bounded(lu.data.v@, n as int, j as int)']},
+             4: {'invariant': [SHP, '0 <= j < n', 'j <= p < n', 'bounded(lu.data.v@, n as int, j as int)',
+                               'C11.mlu.pivot_max:: colmax(lu.data.v@, n as int, j as int, p as int, j as int, i as int)']},
+             5: {'invariant': [SHP, '0 <= j < p < n', 'C11.mlu.bounded.swap:: bounded(lu.data.v@, n as int, j as int)',
+                               'k <= j ==> colmax(lu.data.v@, n as int, j as int, p as int, j as int, n as int)',
+                               'k > j ==> colmax(lu.data.v@, n as int, j as int, j as int, j as int, n as int)'],
+                 'body_ghost': 'let ghost pre_lu = lu.data.v@;',
+                 'body_start': 'lemma_idx(p as int, k as int, n as int, n as int); lemma_idx(j as int, k as int, n as int, n as int);',
+                 'body_end': ('assert forall|r: int, c: int| 0 <= r < n && 0 <= c < n implies #[trigger] at2(lu.data.v@, n as int, r, c) == (if c == k && r == p { at2(pre_lu, n as int, j as int, k as int) } else if c == k && r == j { at2(pre_lu, n as int, p as int, k as int) } else { at2(pre_lu, n as int, r, c) }) by '
+                              '{ lemma_idx(r, c, n as int, n as int); if r * n + c == p * n + k { lemma_idx_inj(r, c, p as int, k as int, n as int); } if r * n + c == j * n + k { lemma_idx_inj(r, c, j as int, k as int, n as int); } } '
+                              'assert(bounded(lu.data.v@, n as int, j as int)) by { assert forall|r: int, c: int| 0 <= c < j && c < r < n implies r_abs(rv(#[trigger] at2(lu.data.v@, n as int, r, c))) <= 1real by { assert(r_abs(rv(at2(pre_lu, n as int, r, c))) <= 1real); assert(r_abs(rv(at2(pre_lu, n as int, j as int, c))) <= 1real); assert(r_abs(rv(at2(pre_lu, n as int, p as int, c))) <= 1real); } } '
+                              'if k == j { assert forall|r: int| j <= r < n implies r_abs(rv(#[trigger] at2(lu.data.v@, n as int, r, j as int))) <= r_abs(rv(at2(lu.data.v@, n as int, j as int, j as int))) by { assert(r_abs(rv(at2(pre_lu, n as int, r, j as int))) <= r_abs(rv(at2(pre_lu, n as int, p as int, j as int)))); assert(r_abs(rv(at2(pre_lu, n as int, j as int, j as int))) <= r_abs(rv(at2(pre_lu, n as int, p as int, j as int)))); } } '
+                              'else { assert forall|r: int| j <= r < n implies #[trigger] at2(lu.data.v@, n as int, r, j as int) == at2(pre_lu, n as int, r, j as int) by { } }')},
+             6: {'invariant': [SHP, '0 <= j < n', 'rv(at2(lu.data.v@, n as int, j as int, j as int)) != 0real', 'bounded(lu.data.v@, n as int, j as int)',
+                               'C11.mlu.col_done:: forall|r: int| j < r < i ==> r_abs(rv(#[trigger] at2(lu.data.v@, n as int, r, j as int))) <= 1real',
+                               'C11.mlu.col_todo:: forall|r: int| i <= r < n ==> r_abs(rv(#[trigger] at2(lu.data.v@, n as int, r, j as int))) <= r_abs(rv(at2(lu.data.v@, n as int, j as int, j as int)))'],
+                 'body_ghost': 'let ghost pre_lu = lu.data.v@;',
+                 'body_start': 'lemma_idx(i as int, j as int, n as int, n as int); lemma_idx(j as int, j as int, n as int, n as int);',
+                 'body_end': (MFRAME.format(R='i', C='j') + ' let x_ = rv(at2(pre_lu, n as int, i as int, j as int)); let p_ = rv(at2(pre_lu, n as int, j as int, j as int)); '
+                              'assert(r_abs(x_) <= r_abs(p_)); nra_quot_bounded(x_, p_, r_abs(x_), r_abs(p_), x_ / p_); assert(rv(at2(lu.data.v@, n as int, i as int, j as int)) == x_ / p_); ' + KEEP)},
+         },
+         hints=[('let mut pivots: Vec<i32>', 'before', 'proof { assert(n <= 0x7fff_ffff); }'),
+                ('for j in 0..n', 'before', 'proof { assert(is_perm32(pivots@, n as int)); }'),
+                ('lu[[i, j]] = lu[[i, j]] - (s);', 'pre', 'let ghost pre_lu = lu.data.v@; proof { lemma_idx(i as int, j as int, n as int, n as int); }'),
+                ('lu[[i, j]] = lu[[i, j]] - (s);', 'post', 'proof { ' + MFRAME.format(R='i', C='j') + ' ' + KEEP + ' }'),
+                ('pivots.swap(p, j);', 'before', 'proof { lemma_perm32_swap(pivots@, n as int, p as int, j as int); }'),
+                ('if j < n && lu[[j, j]] != 0.', 'before', 'proof { assert(colmax(lu.data.v@, n as int, j as int, j as int, j as int, n as int)); }')])
+
+UNITS.append(Unit('C11_matrix_lu', ('C11', 'C01'), [mlu], use=core.core_stubs(), types=core.TYPES, type_spec=core.TYPE_SPEC, spec=SPEC + LU_SPEC, nra=LU_NRA, preludes=PRE, broadcast=BC,
+                  level='L1', rlimit=300,
+                  notes='Matrix-level pivoted LU: same contract as the slice-level routine (permutation, pivot maximality, bounded multipliers)'))
